@@ -84,11 +84,75 @@ Section Preorder.
 End Preorder.
 
 (* ---------- collations ---------- *)
+(* NOCASE as SQLite has it: the folded bytes up to the first NUL, then the total length.  As a sort key: the folded
+   prefix (it has no zero byte), a zero byte, and the length in unary *)
+Fixpoint upto_nul (s : list byte) : list byte :=
+  match s with [] => [] | c :: r => if b2z c =? 0 then [] else lower_byte c :: upto_nul r end.
+Definition nocase_key_n (s : list byte) (n : nat) : list byte := upto_nul s ++ x00 :: repeat x01 n.
+Definition nocase_key (s : list byte) : list byte := nocase_key_n s (length s).
+
 Definition coll_key (c : collation) (s : list byte) : list byte :=
-  match c with CBinary => s | CRtrim => trim_right_sp s | CNocase => map lower_byte s end.
+  match c with CBinary => s | CRtrim => trim_right_sp s | CNocase => nocase_key s end.
+
+Lemma lower_byte_zero x : (b2z (lower_byte x) =? 0) = (b2z x =? 0).
+Proof.
+  unfold lower_byte. pose proof (b2z_range x) as Hr.
+  destruct ((65 <=? b2z x) && (b2z x <=? 90)) eqn:E; [|reflexivity].
+  rewrite b2z_z2b by lia. lia.
+Qed.
+
+Lemma zcmp_nat n m : Z.compare (Z.of_nat (S n)) (Z.of_nat (S m)) = Z.compare (Z.of_nat n) (Z.of_nat m).
+Proof.
+  destruct (Z.compare_spec (Z.of_nat n) (Z.of_nat m)); [apply Z.compare_eq_iff|apply Z.compare_lt_iff|apply Z.compare_gt_iff]; lia.
+Qed.
+
+Lemma ones_cmp n : forall m, bytes_cmp (repeat x01 n) (repeat x01 m) = Z.compare (Z.of_nat n) (Z.of_nat m).
+Proof.
+  induction n as [|n IH]; intros [|m]; cbn [repeat bytes_cmp]; try reflexivity.
+  change (b2z x01) with 1. change (1 ?= 1) with Eq. cbv iota. rewrite IH. symmetry. apply zcmp_nat.
+Qed.
+
+(* the loop of nocaseCompare against the key order; k = the bytes already consumed on both sides *)
+Lemma nocase_loop_key : forall a b k,
+  match nocase_loop a b with Some c => c | None => Z.compare (Z.of_nat (k + length a)) (Z.of_nat (k + length b)) end =
+  bytes_cmp (nocase_key_n a (k + length a)) (nocase_key_n b (k + length b)).
+Proof.
+  induction a as [|x a IH]; intros [|y b] k; cbn [nocase_loop]; unfold nocase_key_n; cbn [upto_nul length app].
+  - cbn [bytes_cmp]. change (b2z x00) with 0. change (0 ?= 0) with Eq. cbv iota. rewrite ones_cmp. reflexivity.
+  - destruct (b2z y =? 0) eqn:Ey; cbn [app bytes_cmp]; change (b2z x00) with 0.
+    + change (0 ?= 0) with Eq. cbv iota. rewrite ones_cmp. reflexivity.
+    + rewrite <- lower_byte_zero in Ey. pose proof (b2z_range (lower_byte y)).
+      assert (E : (0 ?= b2z (lower_byte y)) = Lt) by (apply Z.compare_lt_iff; lia). rewrite E.
+      apply Z.compare_lt_iff. lia.
+  - destruct (b2z x =? 0) eqn:Ex; cbn [app bytes_cmp]; change (b2z x00) with 0.
+    + change (0 ?= 0) with Eq. cbv iota. rewrite ones_cmp. reflexivity.
+    + rewrite <- lower_byte_zero in Ex. pose proof (b2z_range (lower_byte x)).
+      assert (E : (b2z (lower_byte x) ?= 0) = Gt) by (apply Z.compare_gt_iff; lia). rewrite E.
+      apply Z.compare_gt_iff. lia.
+  - pose proof (lower_byte_zero x) as Zx. pose proof (lower_byte_zero y) as Zy.
+    pose proof (b2z_range (lower_byte x)) as Rx. pose proof (b2z_range (lower_byte y)) as Ry.
+    destruct (b2z x =? 0) eqn:Ex; destruct (b2z y =? 0) eqn:Ey; cbn [app bytes_cmp]; change (b2z x00) with 0.
+    + assert (E : (b2z (lower_byte x) =? b2z (lower_byte y)) = true) by lia. rewrite E. cbn [negb]. rewrite Zx.
+      change (0 ?= 0) with Eq. cbv iota. rewrite ones_cmp. reflexivity.
+    + assert (E : (b2z (lower_byte x) =? b2z (lower_byte y)) = false) by lia. rewrite E. cbn [negb].
+      assert (E0 : b2z (lower_byte x) = 0) by lia. rewrite E0.
+      assert (C : (0 ?= b2z (lower_byte y)) = Lt) by (apply Z.compare_lt_iff; lia). rewrite C. reflexivity.
+    + assert (E : (b2z (lower_byte x) =? b2z (lower_byte y)) = false) by lia. rewrite E. cbn [negb].
+      assert (E0 : b2z (lower_byte y) = 0) by lia. rewrite E0.
+      assert (C : (b2z (lower_byte x) ?= 0) = Gt) by (apply Z.compare_gt_iff; lia). rewrite C. reflexivity.
+    + destruct (b2z (lower_byte x) =? b2z (lower_byte y)) eqn:E; cbn [negb].
+      * rewrite Zx. apply Z.eqb_eq in E. rewrite E, Z.compare_refl.
+        replace (k + S (length a))%nat with (S k + length a)%nat by lia.
+        replace (k + S (length b))%nat with (S k + length b)%nat by lia. apply IH.
+      * destruct (b2z (lower_byte x) ?= b2z (lower_byte y)) eqn:C; try reflexivity.
+        apply Z.compare_eq_iff in C. lia.
+Qed.
+
+Lemma nocase_cmp_key a b : nocase_cmp a b = bytes_cmp (nocase_key a) (nocase_key b).
+Proof. unfold nocase_cmp, nocase_key, len. exact (nocase_loop_key a b 0). Qed.
 
 Lemma collate_cmp_key c a b : collate_cmp c a b = bytes_cmp (coll_key c a) (coll_key c b).
-Proof. destruct c; reflexivity. Qed.
+Proof. destruct c; try reflexivity. apply nocase_cmp_key. Qed.
 
 (* ---------- exact comparison of dyadic numbers ---------- *)
 Lemma pow2_pos k : 0 <= k -> 0 < 2 ^ k.
